@@ -184,6 +184,9 @@ def c07_c(ctx: Ctx):
         elif isinstance(v, ast.Dict) and any(k is None for k in v.keys):
             out.append(ctx.viol(R, gb, a, f"the cursor's filter and the $exists pre-filter are merged into one mapping ({t[:70]}): when the filter constrains the grouping key itself "
                                 "the $exists entry replaces that constraint and jobs outside the selection are grouped"))
+        elif isinstance(v, ast.Call) and isinstance(v.func, ast.Name) and v.func.id == "dict" and "_filter" in names_in(v) and (v.keywords or len(v.args) > 1):
+            out.append(ctx.viol(R, gb, a, f"the cursor's filter and the $exists pre-filter are merged into one mapping ({t[:70]}): when the filter constrains the grouping key itself "
+                                "the $exists entry replaces that constraint and jobs outside the selection are grouped"))
         elif isinstance(v, ast.Call) and isinstance(v.func, ast.Name) and "_filter" in names_in(v):
             # a helper builds the combined filter: any return that merges the two mappings into one is the violating shape
             tg = [t for t in gb.nested_all if t.name == v.func.id] or [t for t in ctx.calls.resolve_call(gb, v)[0]]
@@ -312,4 +315,14 @@ def c07_e(ctx: Ctx):
     return out
 
 
-RULES = [c07_a, c07_b, c07_c, c07_d, c07_e]
+@rule("C07-f")
+def c07_f(ctx: Ctx):
+    """Nested-mapping and dotted / operator-suffix spellings flatten to the same (key, hashable value) pairs (same obligation as C06-g)."""
+    from .c06 import c06_g
+    res = c06_g(ctx)
+    for r in res:
+        r.rule = "C07-f"
+    return res
+
+
+RULES = [c07_a, c07_b, c07_c, c07_d, c07_e, c07_f]
